@@ -104,8 +104,9 @@ class PopenSpawn(SpawnBase):
             buf = b''
             try:
                 buf = os.read(fileno, 1024)
-            except OSError as e:
-                self._log(e, 'read')
+            except OSError:
+                # treated as end of stream below
+                pass
 
             if not buf:
                 # This indicates we have reached EOF
